@@ -7,9 +7,12 @@ For every definition the real parser + desugarer hand to lifting:
   * the decidable hypotheses of C01_definition_chain_never_panics /
     C01_pipeline_mirrors_never_panic are EVALUATED (is_block, stmt_sugar_free,
     ast_init_flat - proved of what Model.Desugar hands on, here evaluated on what the REAL
-    desugarer hands on - and the three clauses of PipelineMirrors.body_ok: names_distinct,
-    stmt_lits_ok, ssa_output_ok; also definition_wf and ast_init_ok).  A definition that
-    does not meet one of them is a broken hypothesis;
+    desugarer hands on - and the two clauses of PipelineMirrors.body_ok: names_distinct,
+    stmt_lits_ok; also definition_wf and ast_init_ok).  A definition that does not meet one
+    of them is a broken hypothesis.  ssa_output_ok (one defining assignment per local in the
+    SSA output) is no hypothesis any more but a theorem for every body
+    (C01_chain_ssa_output_unique_local_defs); it is still evaluated, under both enumeration
+    orders: a 0 means the extracted code contradicts the theorem;
   * the conclusion of the theorem is evaluated on the extracted chain (hypotheses met =>
     the outcome is ok / err-lift / err-ssa, under the identity and the reversed
     enumeration of every hash-ordered set) - a cross-check of the statement itself;
@@ -143,6 +146,10 @@ def run(common, rng, quick, sources, nesting_depth):
             disagreements.append({"src": src, "label": label, "def": d[:2000], "impl": r, "model": m[:200]})
             continue
         unmet = [n for n, b in zip(HYP_NAMES, bits) if b != "1"]
+        if "ssa_output_ok" in unmet:
+            thm_broken.append({"src": src, "label": label, "def": d[:2000], "model": ch, "reversed": cr,
+                               "contradicts": "C01_chain_ssa_output_unique_local_defs"})
+            unmet.remove("ssa_output_ok")
         if unmet:
             hyp_broken.append({"src": src, "label": label, "def": d[:2000], "unmet": unmet, "impl": r, "model": ch})
         elif mc not in ("ok", "err-lift", "err-ssa"):
